@@ -23,17 +23,17 @@ let bits_str = function
   | None -> "-"
   | Some l -> if l = [] then "" else String.concat "" (List.map (fun b -> if b then "1" else "0") l)
 
-let snapshot (s : st) =
+let snapshot pl (s : st) =
   let refs = List.fold_left (fun a nd -> a + int_of_nat nd.n_refs) 0 s.s_nodes in
   let blk = List.fold_left (fun a nd -> a + int_of_nat nd.n_blk) 0 s.s_nodes in
   let mp = List.fold_left (fun a nd -> a + (match nd.n_chunk with Some _ -> 1 | None -> 0)) 0 s.s_nodes in
   let fo = List.fold_left (fun a f -> a + (if f.f_open && not f.f_pad then 1 else 0)) 0 s.s_files in
-  Printf.sprintf "o%d k%d c%d p%d u%d b%s r%s d%d e%d s%d rf%d bl%d mp%d hq%d fo%d"
+  Printf.sprintf "o%d k%d c%d p%d u%d b%s r%s d%d e%d s%d rf%d bl%d mp%d hq%d fo%d mb%d mu%d"
     (if s.s_open then 1 else 0) (if is_checking s then 1 else 0) (if is_checked s then 1 else 0)
     (int_of_nat s.s_pos) (match s.s_out with None -> -1 | Some k -> int_of_nat k)
     (bits_str s.s_bits) (bits_str (Some s.s_ranges))
     (if s.s_delay then 1 else 0) (if s.s_errno then 1 else 0) (if s.s_storerr then 1 else 0)
-    refs blk mp (List.length s.s_hq) fo
+    refs blk mp (List.length s.s_hq) fo mp (mp * pl)
 
 let disk_token (f : fnode) =
   if f.f_pad then "P" else
@@ -57,6 +57,19 @@ let () = each_line (fun line ->
            if not p then for g = !off to !off + l - 1 do content.(g) <- content_byte seed g done;
            off := !off + l) files;
        let npieces = (total + pl - 1) / pl in
+       let pt0 = split_ws pert in
+       (* Z<k>:<n>: the described content of file k ends in n zero bytes *)
+       List.iter (fun t -> if t.[0] = 'Z' then begin
+           match String.split_on_char ':' (String.sub t 1 (String.length t - 1)) with
+           | [ks; ns] ->
+             let k = int_of_string ks and nz = int_of_string ns in
+             let offk = ref 0 in
+             List.iteri (fun j (l, _) -> if j < k then offk := !offk + l) files;
+             (match List.nth_opt files k with
+              | Some (l, false) -> let nz = min nz l in
+                for g = !offk + l - nz to !offk + l - 1 do content.(g) <- 0 done
+              | _ -> ())
+           | _ -> () end) pt0;
        let orig = Array.copy content in
        let bad = Array.make (max npieces 1) false in
        let pt = split_ws pert in
@@ -96,7 +109,7 @@ let () = each_line (fun line ->
              | 'K' -> OTick | 'W' | 'w' -> ORunAll | 'D' -> ODeliver (nat_of_int (num t))
              | _ -> failwith "op" in
            s := step hfun pln expected !s o;
-           snapshot !s) (split_ws ops) in
+           snapshot pl !s) (split_ws ops) in
        if !s.s_ierr then "ERR:internal" else
        String.concat ";" outs ^ " # " ^ String.concat " " (List.map disk_token !s.s_files)
        ^ (if !s.s_ierr then " ierr=1" else " ierr=0")
